@@ -18,11 +18,6 @@ def validFieldName (n : Str) : Bool :=
   let core := if n.getLast? == some '\n' then n.dropLast else n
   !core.isEmpty && core.all isWordChar
 
-/-- `"%d" % degree` for a Decimal: truncation toward zero -/
-def Dec.truncText (d : Dec) : Str :=
-  let n : Nat := if d.exp ≥ 0 then d.coeff * 10 ^ d.exp.toNat else d.coeff / 10 ^ (-d.exp).toNat
-  (if d.neg && n ≠ 0 then ['-'] else []) ++ natDigits n
-
 def isInstance (classes : List String) (t : Tree) : Bool :=
   (mroOf t.className).any (fun c => classes.contains c)
 
@@ -50,7 +45,8 @@ def ownErrors (zeal : Nat) (m : String) (parents : List Tree) (t : Tree) : List 
     (if zeal ≠ 0 && v.any (fun c => c == '+' || c == '/' || c == '-')
      then [lit "Invalid characters in term value: " ++ v] else [])
   | "Fuzzy", .approx _ term n _ =>
-    (if n.val.neg then [lit "invalid degree " ++ n.val.truncText ++ lit ", it must be positive"] else []) ++
+    -- (after fix F7 the degree is printed with `format(degree, "f")`; before, `%d` truncated it and crashed on -Infinity)
+    (if n.val.neg then [lit "invalid degree " ++ n.val.render ++ lit ", it must be positive"] else []) ++
     (if isInstance ["Word"] term then [] else [lit "Fuzzy should be on a single term in " ++ t.str])
   | "Proximity", .approx _ term _ _ =>
     if isInstance ["Phrase"] term then [] else [lit "Proximity can be only on a phrase in " ++ t.str]
